@@ -172,7 +172,7 @@ theorem iterate_inv {σ : Type} (lr : σ → List Event → Option σ)
       exact ⟨_, rfl, oev, ls1, rfl, hl1, .inr ⟨.fuel, rfl, by simpa using hpost, rfl⟩⟩
 
 /-- case analysis on a run's result (used instead of a `match` in statements) -/
-@[reducible] def Outcome (x : Except String Out) (ok : Out → Prop) (err : Prop) : Prop :=
+def Outcome (x : Except String Out) (ok : Out → Prop) (err : Prop) : Prop :=
   match x with
   | .ok o => ok o
   | .error _ => err
@@ -200,17 +200,18 @@ theorem iterate_inv_gen {σ : Type} (lr : σ → List Event → Option σ)
   induction n with
   | zero =>
     intro env inp ls acc _
+    rw [iterate, Outcome_ok]
     exact ⟨[], ls, by simp, lr_nil ls, .inl rfl⟩
   | succ n ih =>
     intro env inp ls acc hI
     have hb := hbody env inp ls hI
     cases hbe : body env inp with
     | error e =>
-      rw [hbe] at hb
-      simp only [iterate, hbe, bind, Except.bind]
+      rw [hbe, Outcome_error] at hb
+      simp only [iterate, hbe, bind, Except.bind, Outcome_error]
       exact ⟨[], ls, env, inp, lr_nil ls, hb⟩
     | ok o =>
-      rw [hbe] at hb
+      rw [hbe, Outcome_ok] at hb
       obtain ⟨ls1, hl1, hpost⟩ := hb
       rcases o with ⟨oev, oenv, oinp, octl⟩
       simp only [iterate, hbe, bind, Except.bind]
@@ -220,11 +221,13 @@ theorem iterate_inv_gen {σ : Type} (lr : σ → List Event → Option σ)
         have ih' := ih oenv oinp ls1 (acc ++ oev) hpost
         cases hi : iterate body n oenv oinp (acc ++ oev) with
         | error e =>
-          rw [hi] at ih'
+          rw [hi, Outcome_error] at ih'
+          rw [Outcome_error]
           obtain ⟨evs, ls2, env', inp', hl2, hbad⟩ := ih'
           exact ⟨oev ++ evs, ls2, env', inp', by simp [lr_append, hl1, hl2], hbad⟩
         | ok out =>
-          rw [hi] at ih'
+          rw [hi, Outcome_ok] at ih'
+          rw [Outcome_ok]
           obtain ⟨evs, ls2, hev, hl2, hfin⟩ := ih'
           exact ⟨oev ++ evs, ls2, by simp [hev], by simp [lr_append, hl1, hl2], hfin⟩
       | cont =>
@@ -232,24 +235,30 @@ theorem iterate_inv_gen {σ : Type} (lr : σ → List Event → Option σ)
         have ih' := ih oenv oinp ls1 (acc ++ oev) hpost
         cases hi : iterate body n oenv oinp (acc ++ oev) with
         | error e =>
-          rw [hi] at ih'
+          rw [hi, Outcome_error] at ih'
+          rw [Outcome_error]
           obtain ⟨evs, ls2, env', inp', hl2, hbad⟩ := ih'
           exact ⟨oev ++ evs, ls2, env', inp', by simp [lr_append, hl1, hl2], hbad⟩
         | ok out =>
-          rw [hi] at ih'
+          rw [hi, Outcome_ok] at ih'
+          rw [Outcome_ok]
           obtain ⟨evs, ls2, hev, hl2, hfin⟩ := ih'
           exact ⟨oev ++ evs, ls2, by simp [hev], by simp [lr_append, hl1, hl2], hfin⟩
       | brk =>
         simp only [Ctl.goesOn] at hpost
+        rw [Outcome_ok]
         exact ⟨oev, ls1, rfl, hl1, .inr ⟨.brk, rfl, by simpa using hpost, rfl⟩⟩
       | ret v =>
         simp only [Ctl.goesOn] at hpost
+        rw [Outcome_ok]
         exact ⟨oev, ls1, rfl, hl1, .inr ⟨.ret v, rfl, by simpa using hpost, rfl⟩⟩
       | blocked =>
         simp only [Ctl.goesOn] at hpost
+        rw [Outcome_ok]
         exact ⟨oev, ls1, rfl, hl1, .inr ⟨.blocked, rfl, by simpa using hpost, rfl⟩⟩
       | fuel =>
         simp only [Ctl.goesOn] at hpost
+        rw [Outcome_ok]
         exact ⟨oev, ls1, rfl, hl1, .inr ⟨.fuel, rfl, by simpa using hpost, rfl⟩⟩
 
 end UrcuVerif.Src
